@@ -31,6 +31,27 @@ fam('types_upd', depth=2, maxstack=4,
 FAMS = ['types_upd', 'types_list', 'types_map', 'types_ctor', 'optlist', 'adt', 'dipstack', 'stack']
 
 
+def annotated_types(ctx, prop, fname, st):
+    from . import C17
+    from .. import vmreplay
+    from ..tlaparse import to_json
+    import json
+    init, env, prog = st['init'], st['env'] if isinstance(st['env'], dict) else {}, st['hist']
+    if vmreplay.classify(st['status'], st['stack'], st['failv'], vmreplay.run_impl(init, env, prog)) is not None:
+        return 'other-property'
+    bad = None
+    for scheme in ('field-inner-pairs', 'both-all'):
+        got = vmreplay.run_impl(init, env, prog, annotate=lambda tj: C17.annotate_type(tj, scheme), instr_annotate=lambda ij: C17.annotate_instr(ij, scheme))
+        res = vmreplay.classify(st['status'], st['stack'], st['failv'], got)
+        ctx.count((fname, init, prog, scheme), nontrivial=True)
+        if res is not None and res[0] == 'type':
+            ctx.mismatch('C02:annotated-values:%s:%s:type' % (scheme, prog[-1][0]), 'program %s on %s with the initial values typed under annotation scheme %s: %s' % (
+                json.dumps(to_json(prog)), json.dumps(to_json(init)), scheme, res[1]),
+                {'family': fname, 'init': to_json(init), 'env': to_json(env), 'hist': to_json(prog), 'status': st['status'], 'stack': to_json(st['stack']), 'failv': to_json(st['failv']), 'scheme': scheme})
+            bad = 'type'
+    return bad
+
+
 def run(ctx):
     ctx.rule = ('same machinery as C01 restricted to the *type* of every stack slot: Leg A = TLC checks TypePreservation (dynamic types of the reference run = static '
                 'Ty, every value HasType its slot type, lambda bodies typed) on every reachable state; Leg B = the runtime type expression (annotations stripped) '
@@ -43,6 +64,10 @@ def run(ctx):
         if not ctx.quick:
             fams[name]['depth'] += 1
     C01.run_families(ctx, 'C02', 'types', fams)
+    # values that live at annotated types (as storage and parameter values do): the type of every slot, annotations stripped, is still the static one
+    from . import C17
+    cf = dict(vmfam.FAMILIES['comb'])
+    C01.run_families(ctx, 'C02', 'types_annot', {'comb': cf}, replay_fn=annotated_types)
     ctx.exhaustive = True
     C01.leg_c(ctx, 'C02', C01.REPO_TESTS[:1] + C01.REPO_TESTS[2:3])
 
